@@ -1061,12 +1061,20 @@ def c09_search(ctx, failing, corr, broken):
                 if c09_oracle(e, xs) is None and e['meta'].get('name') != 'Inverse':
                     break
                 reqs.append((e['index'], fmt, [co.hex_of(x < 0, abs(x), 0) for x in xs], []))
-                info.append((e, fmt, xs))
+                info.append((e, fmt, xs, 0))
+            if e['meta'].get('name') == 'Inverse':
+                # well-conditioned but tiny (and huge) tensors: an integer matrix times 2^-k (2^k); the
+                # determinant is far below machine epsilon (far above 1) yet exactly non-zero
+                for _ in range(6 if broken else 2):
+                    xs = [rng.randrange(-9, 10) for _ in range(v['n_in'])]
+                    sh = rng.choice([-1, 1]) * rng.randrange(8, 26)
+                    reqs.append((e['index'], fmt, [co.hex_of(x < 0, abs(x), sh) for x in xs], []))
+                    info.append((e, fmt, xs, sh))
     if not reqs:
         return []
     res, err, rc = ctx.run_native(reqs)
     out = []
-    for (e, fmt, xs), r in zip(info, res):
+    for (e, fmt, xs, sh), r in zip(info, res):
         if r is None or r.get('error'):
             continue
         outs = num_outs(r)
@@ -1077,11 +1085,13 @@ def c09_search(ctx, failing, corr, broken):
             has = [t for (l, t) in other_outs(r) if l.startswith('r.has')]
             if has and (has[0] == 'true') != (d != 0):
                 out.append({'kind': 'c09-inverse-presence', 'entry': e['id'], 'fmt': fmt, 'index': e['index'],
-                            'inputs': xs, 'determinant': d, 'has_value': has[0],
-                            'what': '%s: determinant %d but has_value=%s' % (e['id'], d, has[0])})
+                            'inputs': xs, 'scaled_by_two_to': sh, 'determinant': str(Fraction(d) * Fraction(2) ** (3 * sh)),
+                            'has_value': has[0],
+                            'what': '%s of the integer matrix %s times 2^%d: determinant %s but has_value=%s' % (
+                                e['id'], xs, sh, Fraction(d) * Fraction(2) ** (3 * sh), has[0])})
             elif d != 0 and outs:
                 adj = _T(_cof(M))
-                want = [Fraction(t, d) for t in (_flat9(adj) if n == 9 else _flat6(adj))]
+                want = [Fraction(t, d) * Fraction(2) ** (-sh) for t in (_flat9(adj) if n == 9 else _flat6(adj))]
                 for i, ((l, c), w) in enumerate(zip(outs, want)):
                     if c in ('nan', 'inf', '-inf') or abs(co.frac_of_canon(c) - w) > abs(w) * Fraction(1, 2 ** 20) + Fraction(1, 2 ** 40):
                         out.append({'kind': 'c09-inverse-value', 'entry': e['id'], 'fmt': fmt, 'index': e['index'],
